@@ -140,6 +140,16 @@ impl Monitor for C05 {
         s.join = Some(Join { outer, table: "u".into(), file: "@JOINED@".into(), left: if flip { ("u".into(), key.into()) } else { ("t".into(), key.into()) }, right: if flip { ("t".into(), key.into()) } else { ("u".into(), key.into()) } });
         let mut jspec = TableSpec { name: "j".into(), patterns: vec![], cols: vec![] };
         for (n, ty) in &js.cols { jspec.cols.push(ColSpec { name: n.clone(), ty: ty.clone(), src: Src::Json(vec![JsonStep::Field(n.clone())]), modifier: if matches!(ty, Ty::Ts | Ty::Iv) { Modifier::Convert } else { Modifier::None } }); }
+        // a table joined with (another file of) itself: `*` lists the queried line's columns, then the joined line's
+        if rng.chance(1, 12) {
+            let ul2 = std_lines(rng, &t, nu, &dct);
+            let mut j2 = TableSpec { name: "j".into(), patterns: vec![], cols: vec![] };
+            for side in ["t", "u"] { for (n, ty) in &t.schema.cols { let name = format!("{}_{}", side, n); j2.cols.push(ColSpec { name: name.clone(), ty: ty.clone(), src: Src::Json(vec![JsonStep::Field(name)]), modifier: if matches!(ty, Ty::Ts | Ty::Iv) { Modifier::Convert } else { Modifier::None } }); } }
+            let names: Vec<String> = t.schema.cols.iter().map(|(n, _)| n.clone()).collect();
+            return json!({"kind": "join", "tables": t.spec.text(), "t_table": t.spec.text(), "u_table": t.spec.text(), "j_table": j2.text(),
+                "stmt": format!("SELECT * FROM t {} JOIN t :: '@JOINED@' ON t . {} = t . {}", if outer { "OUTER" } else { "INNER" }, key, key), "stmt_j": "SELECT * FROM j",
+                "t_lines": tl, "u_lines": ul2, "key": key, "outer": outer, "t_cols": names.clone(), "u_cols": names, "fault": "none", "u_crlf": false, "u_unterminated": false, "fault_limit": J::Null, "self_join": true});
+        }
         json!({"kind": "join", "tables": format!("{} {}", t.spec.text(), u.spec.text()), "t_table": t.spec.text().replace("CREATE TABLE t ", "CREATE TABLE t "), "u_table": u.spec.text().replace("CREATE TABLE u ", "CREATE TABLE t "),
                "j_table": jspec.text(), "stmt": s.text(Paren::Full), "stmt_j": sj.text(Paren::Full), "t_lines": tl, "u_lines": ul, "key": key, "outer": outer,
                "t_cols": t.schema.cols.iter().map(|(n, _)| n.clone()).collect::<Vec<_>>(), "u_cols": u.schema.cols.iter().map(|(n, _)| n.clone()).collect::<Vec<_>>(),
@@ -216,6 +226,7 @@ impl Monitor for C05 {
         let dup_t = trows.iter().any(|r| !r[tk].is_null() && trows.iter().filter(|x| eq_ref(&x[tk], &r[tk]) == Some(true)).count() >= 2 && urows.iter().any(|s| eq_ref(&s[uk], &r[tk]) == Some(true)));
         if fanout || dup_t || null_both { obs.nontrivial(); }
         obs.hit(if outer { "join:outer" } else { "join:inner" });
+        if case["self_join"] == true { obs.hit("join:table-with-itself"); }
         obs.hit(if aggregate { "stmt:aggregate" } else { "stmt:select" });
         obs.hit(&format!("key:{}", key));
 
@@ -249,7 +260,8 @@ impl Monitor for C05 {
                 }
                 if star && !g.rows.is_empty() {
                     let mut names: Vec<String> = tcols.clone();
-                    for c in &ucols { if tcols.contains(c) { names.push(format!("u.{}", c)); } else { names.push(c.clone()); } }
+                    let jname = if case["self_join"] == true { "t" } else { "u" };
+                    for c in &ucols { if tcols.contains(c) { names.push(format!("{}.{}", jname, c)); } else { names.push(c.clone()); } }
                     if g.columns != names { vs.push(Violation::new(format!("join|{}|star-columns", shape), format!("columns {:?}, expected {:?}", g.columns, names))); }
                     if case["stmt_j"].as_str() == Some("SELECT * FROM j") {
                         let ok = g.rows.len() == expected_star.len() && g.rows.iter().zip(expected_star.iter()).all(|(a, b2)| a.len() == b2.len() && a.iter().zip(b2.iter()).all(|(x, y)| x.same(y, 0.0)));
